@@ -22,8 +22,8 @@ J = {
   ('compiler/expr_translate.py', 'QL.__init__', 'F2', 'self.bulk_function_arity_range = self.BULK_FUNCTIONS_ARITY_RANGE'):
       'read-only alias',
   # F3: set-typed values used where order could matter
-  ('compiler/universe.py', 'Logica.NeededUdfDefinitions', 'F3', 'list(needed_semigroups)'):
-      'PostgreSQL aggregates only; at most one semigroup per program in practice (order-sensitive otherwise)',
+  ('parser_py/parse.py', 'ParseFile', 'F3', 'GeneratorExp: comprehension over defined_predicates & new_predicates'):
+      'argument of any(): a boolean (the set itself appears only in the text of the diagnostic)',
   ('compiler/universe.py', 'Annotations.BuildFlagValues', 'F3', 'list(set(self.user_flags) - allowed_flags_set)'):
       'text of a diagnostic only',
   ('compiler/universe.py', 'LogicaProgram.__init__', 'F3', 'list(set(self.dollar_params) - set(self.flag_values))'):
